@@ -66,6 +66,8 @@ func propC08(c *Ctx) propInfo {
 	c.panicFree(e1cfg{roots: roots, pkgs: pk, traverse: trav, maxDepth: depth, exc: mergeExc(excC07, excC08), excP5: mergeExc(excC07P5, excC08P5)})
 	trav2 := map[string]bool{"liteapi": true, "tlb": true, "tl": true, "boc": true, "ton": true, "utils": true, "code": true}
 	c.panicFree(e1cfg{roots: apiRoots, pkgs: map[string]bool{"liteapi": true}, traverse: trav2, maxDepth: depth, exc: excC08, excP5: excC08P5})
+	c.reflectSetGuards("tlb")
+	c.nilFuncCalls("tlb", "tl", "boc")
 	c.errflow(excE2, "tlb", "tl", "code", "boc")
 	c.bufferSizing() // the bounds proofs of the bit-level readers/writers lean on 8*len(buf) >= cap
 	c.floor("E1.P2-bounds", 250)
